@@ -1,7 +1,8 @@
 ------------------------------ MODULE MC_Writer ------------------------------
 (* Exhaustive check of Writer.tla: every well-nested program over the full instruction alphabet up
    to MaxLen, plus every program over the reduced alphabet (text, buffered macro, converted macro,
-   return, recovering defer) up to MaxLenR, never deeper than two nested macro calls - each with
+   return, recovering defer) up to MaxLenR and over the minimal one (text, converted macro, return,
+   recovering defer) up to MaxLenM, never deeper than MaxDepth nested macro calls - each with
    every failure index k in 1..n+1 (n = its number of writes), failing once or sticky.
 
    And the replay CATALOGUE: every concrete template the driver knows (by name) with its abstract
@@ -9,17 +10,18 @@
    both variants of the converter-error branch.  The driver does a counting run of the real
    template and then runs every k in 1..n+1. *)
 EXTENDS Writer, Json, SequencesExt
-CONSTANTS MaxLen, MaxLenR, MaxDepth
+CONSTANTS MaxLen, MaxLenR, MaxLenM, MaxDepth
 
-OpenDepth(p) == Cardinality({i \in DOMAIN p : p[i] \in Calls}) - Cardinality({i \in DOMAIN p : p[i] = "R"})
-ValidExt(p, o, left) == LET d == OpenDepth(p) IN
-   IF o \in Calls THEN d < MaxDepth /\ d + 1 <= left ELSE IF o = "R" THEN d > 0 ELSE d <= left
+\* well-nested programs are generated prefix by prefix, each carried with its number of open calls
+NewD(d, o) == IF o \in Calls THEN d + 1 ELSE IF o = "R" THEN d - 1 ELSE d
+Ext(q, A, left) == {<<Append(q[1], o), NewD(q[2], o)>> :
+                      o \in {a \in A : NewD(q[2], a) >= 0 /\ NewD(q[2], a) <= MaxDepth /\ NewD(q[2], a) <= left}}
 RECURSIVE Pre(_, _, _)
-\* prefixes of length n of well-nested programs of length <= L over alphabet A
-Pre(n, A, L) == IF n = 0 THEN {<<>>}
-                ELSE {Append(q[1], q[2]) : q \in {r \in Pre(n - 1, A, L) \X A : ValidExt(r[1], r[2], L - n)}}
-Gen(A, L) == UNION {{p \in Pre(n, A, L) : OpenDepth(p) = 0} : n \in 0..L}
+\* <<prefix, open calls>> for the prefixes of length n of well-nested programs of length <= L over alphabet A
+Pre(n, A, L) == IF n = 0 THEN {<< <<>>, 0 >>} ELSE UNION {Ext(q, A, L - n) : q \in Pre(n - 1, A, L)}
+Gen(A, L) == UNION {{q[1] : q \in {r \in Pre(n, A, L) : r[2] = 0}} : n \in 0..L}
 Reduced == {"T", "CB", "CC", "R", "DR"}
+Minimal == {"T", "CC", "R", "DR"}
 
 Catalogue == {
   [name |-> "text",            kind |-> "text",      m |-> TRUE,  shape |-> <<"T">>],
@@ -83,7 +85,7 @@ Values == {"str", "plain", "empty", "query", "int", "float", "bool", "slice", "i
            "envstr", "htmlstr", "html", "err", "bytes", "md", "js", "css", "json", "anys"}
 
 CatShapes == {c.shape : c \in Catalogue}
-MCShapes == CatShapes \cup Gen(Ops, MaxLen) \cup Gen(Reduced, MaxLenR)
+MCShapes == CatShapes \cup Gen(Ops, MaxLen) \cup Gen(Reduced, MaxLenR) \cup Gen(Minimal, MaxLenM)
 
 \* the model's outcomes of a shape: what Run does and whether the template recovered, over all k, sticky or not
 Outcomes(shape, cf) ==
